@@ -338,3 +338,157 @@ def _fx_unit(symbol, charge):
 
 
 U_FXRAY_KEYS = [_fx_unit(s, q) for s in ("Fe", "O", "Cl-", "Ca2+", "H") for q in (None, 0, 1, 2, -1, -2, 3)]
+
+
+# ------------------------------------------------------------------------------ cromermann.fxrayatq, Xray.f0, Xray.sld, Xray._element_symbol
+
+def _fxq_inputs(st, interp):
+    use_state(st)
+    q = st.fresh("Q", z3.RealSort())
+    sym = VObj("Arg", {"what": "symbol"})
+    ch = VObj("Arg", {"what": "charge"})
+    return [sym, q, ch], {}, {"Q": q, "symbol": sym, "charge": ch}
+
+
+def c_rec_fxrayatstol(interp, st, args, kw):
+    call = VObj("Call", {"args": list(args), "kw": dict(kw), "result": VObj("Ret", {})})
+    st.ghost.setdefault("recorded_calls", []).append(call)
+    return call.attrs["result"]
+
+
+def _fxq_post(st, interp, C, res):
+    if res.outcome == "raise":
+        st.oblige("never-raises", False, kind="raises", info={"exc": res.exc})
+        return
+    calls = st.ghost.get("recorded_calls", [])
+    ok = len(calls) == 1 and len(calls[0].attrs["args"]) + len(calls[0].attrs["kw"]) == 3
+    st.oblige("post.evaluates the form factor once", z3.BoolVal(ok))
+    if not ok:
+        return
+    a = calls[0].attrs["args"] + [calls[0].attrs["kw"].get(k) for k in ("symbol", "stol", "charge")[len(calls[0].attrs["args"]):]]
+    st.oblige("post.for the caller's symbol and charge", z3.BoolVal(a[0] is C["symbol"] and a[2] is C["charge"]))
+    st.oblige("post.at s = sin(theta)/lambda = Q/(4 pi)", spec.eq_goal(interp, st, a[1], C["Q"] / (4 * PI)))
+    st.oblige("post.returns that value", z3.BoolVal(res.value is calls[0].attrs["result"]))
+
+
+U_FXRAYATQ = Unit("cromermann.fxrayatq", CM + ".fxrayatq", _fxq_inputs, _fxq_post,
+                  contracts={CM + ".fxrayatstol": c_rec_fxrayatstol}, replay={"module": "c05", "task": "replay"})
+
+
+def _xf0_inputs(st, interp):
+    use_state(st)
+    from .common import ATOMS
+    a = ATOMS.new(st, "atom")
+    self = VObj((XSF, "Xray"), {"element": a})
+    q = VObj("Arg", {"what": "Q"})
+    return [self, q], {}, {"self": self, "atom": a, "Q": q}
+
+
+def c_element_symbol(interp, st, args, kw):
+    return VObj("SymbolOf", {"rec": args[0]})
+
+
+def _xf0_post(st, interp, C, res):
+    if res.outcome == "raise":
+        st.oblige("never-raises", False, kind="raises", info={"exc": res.exc})
+        return
+    calls = st.ghost.get("recorded_calls", [])
+    ok = len(calls) == 1 and not calls[0].attrs["args"] and set(calls[0].attrs["kw"]) == {"Q", "symbol", "charge"}
+    st.oblige("post.evaluates cromermann.fxrayatq once, by keyword", z3.BoolVal(ok))
+    if not ok:
+        return
+    kw = calls[0].attrs["kw"]
+    st.oblige("post.at the caller's Q", z3.BoolVal(kw["Q"] is C["Q"]))
+    st.oblige("post.for the symbol of the underlying element (ion -> isotope -> element)",
+              z3.BoolVal(isinstance(kw["symbol"], VObj) and kw["symbol"].cls == "SymbolOf" and kw["symbol"].attrs["rec"] is C["self"]))
+    st.oblige("post.with the charge of the atom itself", spec.eq_goal(interp, st, kw["charge"], T.CHARGE(C["atom"].expr)))
+    st.oblige("post.returns that value", z3.BoolVal(res.value is calls[0].attrs["result"]))
+
+
+U_XRAY_F0 = Unit("Xray.f0", XSF + ".Xray.f0", _xf0_inputs, _xf0_post,
+                 contracts={CM + ".fxrayatq": c_rec_fxrayatstol, XSF + ".Xray._element_symbol": c_element_symbol},
+                 replay={"module": "c05", "task": "replay"})
+
+
+def _xsym_inputs(st, interp):
+    use_state(st)
+    from .common import ATOMS
+    a = ATOMS.new(st, "atom")
+    return [VObj((XSF, "Xray"), {"element": a})], {}, {"atom": a}
+
+
+def _root_element(a):
+    b = T.BASE(a)
+    return z3.If(T.KIND(a) == 0, a, z3.If(T.KIND(b) == 0, b, T.BASE(b)))
+
+
+def _xsym_post(st, interp, C, res):
+    if res.outcome == "raise":
+        st.oblige("never-raises", False, kind="raises", info={"exc": res.exc})
+        return
+    a = C["atom"].expr
+    # D and T carry their own symbol, but x-ray data are the element's: the symbol asked for is H's
+    st.oblige("post.the symbol of the element underneath (ion -> isotope -> element), not the isotope's own",
+              spec.eq_goal(interp, st, res.value, T.SYMBOL(_root_element(a))))
+
+
+U_XRAY_ELEMENT_SYMBOL = Unit("Xray._element_symbol", XSF + ".Xray._element_symbol", _xsym_inputs, _xsym_post,
+                             replay={"module": "c05", "task": "replay"})
+
+
+ND_NONE = z3.Function("atom.number_density_is_none", T.Atom, z3.BoolSort())
+ND = z3.Function("atom.number_density", T.Atom, z3.RealSort())
+
+
+def _nd_attr(interp, st, v, name, node):
+    if name == "number_density":
+        return VOpt(ND_NONE(v.expr), ND(v.expr))
+    return NotImplemented
+
+
+def _xsldm_inputs(st, interp):
+    use_state(st)
+    from .common import ATOMS
+    st.ghost["atom_attr"] = _nd_attr
+    a = ATOMS.new(st, "atom")
+    self = VObj((XSF, "Xray"), {"element": a})
+    e = st.fresh("energy", z3.RealSort())
+    st.assume(e > 0)
+    return [self], {"energy": e}, {"self": self, "atom": a, "e": e}
+
+
+def c_method_scattering_factors(interp, st, args, kw):
+    a = args[0].attrs["element"].expr
+    e = R(interp.resolve(st, kw["energy"]))
+    call = st.ghost.setdefault("recorded_calls", [])
+    call.append(dict(kw))
+    if st.branch(T.XRAY_NONE(a)):
+        return VTuple([None, None])
+    return VTuple([T.F1(a, e), T.F2(a, e)])
+
+
+def _xsldm_post(st, interp, C, res):
+    if res.outcome == "raise":
+        st.oblige("never-raises", False, kind="raises", info={"exc": res.exc})
+        return
+    a, e = C["atom"].expr, C["e"]
+    v = res.value
+    ok = isinstance(v, VTuple) and len(v.items) == 2
+    st.oblige("post.returns a pair", z3.BoolVal(ok))
+    if not ok:
+        return
+    re_ = R(interp.lookup_global(st, "periodictable.constants", "electron_radius"))
+    nd = ND(a)
+    nodata = z3.Or(T.XRAY_NONE(a), ND_NONE(a))
+    if v.items[0] is None or v.items[1] is None:
+        st.oblige("post.(None, None) only without a table or without a number density",
+                  z3.And(nodata, z3.BoolVal(v.items[0] is None and v.items[1] is None)))
+        return
+    st.oblige("post.a value only with a table and a number density", z3.Not(nodata))
+    st.oblige("post.rho == f1(E) r_e N 1e-8", spec.eq_goal(interp, st, v.items[0], T.F1(a, e) * re_ * nd * z3.RealVal("1e-8")))
+    st.oblige("post.irho == f2(E) r_e N 1e-8", spec.eq_goal(interp, st, v.items[1], T.F2(a, e) * re_ * nd * z3.RealVal("1e-8")))
+
+
+U_XRAY_SLD_METHOD = Unit("Xray.sld", XSF + ".Xray.sld", _xsldm_inputs, _xsldm_post,
+                         contracts={XSF + ".Xray.scattering_factors": c_method_scattering_factors},
+                         replay={"module": "c05", "task": "replay"})
